@@ -39,28 +39,31 @@ def opOk (ord : Bool) : BinOp → Bool
     `isFirst` / `isLast` only), so the fragment does not read variables of such names. -/
 def isHelper (k : Bytes) : Bool := sIndexSuffix.isSuffixOf k || sLastIndexSuffix.isSuffixOf k
 
-/-- the scalar operator fragment, with (`ord = true`) or without the four ordering comparisons -/
-def fragO (ord : Bool) : Expr → Bool
+/-- the scalar operator fragment, with (`ord = true`) or without the four ordering comparisons.  `coll` names
+    the variables that may hold a collection (a list, a map): the fragment does not read those as scalars
+    (they are what a {foreach} ranges over / a {call} passes as data, Props/C02Spec.lean). -/
+def fragO (coll : Bytes → Bool) (ord : Bool) : Expr → Bool
   | .null _ => true
   | .bool _ _ => true
   | .int _ v => decide (-2 ^ 63 ≤ v ∧ v < 2 ^ 63)
   | .float _ _ => true
   | .str _ _ _ => true
   | .global _ _ => true
-  | .dataRef _ key .nil => key != sIj && !isHelper key
-  | .not _ a => fragO ord a
-  | .neg _ a => fragO ord a
-  | .bin op _ a b => opOk ord op && fragO ord a && fragO ord b
-  | .tern _ c a b => fragO ord c && fragO ord a && fragO ord b
+  | .dataRef _ key .nil => key != sIj && !isHelper key && !coll key
+  | .not _ a => fragO coll ord a
+  | .neg _ a => fragO coll ord a
+  | .bin op _ a b => opOk ord op && fragO coll ord a && fragO coll ord b
+  | .tern _ c a b => fragO coll ord c && fragO coll ord a && fragO coll ord b
   | _ => false
 
 /-- the fragment without `< > <= >=` (no hypothesis about the soft-float needed) -/
-def frag (e : Expr) : Bool := fragO false e
+def frag (coll : Bytes → Bool) (e : Expr) : Bool := fragO coll false e
 
-/-- the model's environment and the specification's bind the same scalars -/
-structure EnvRel (m : EEnv) (s : Spec.Eval.Env) : Prop where
+/-- the model's environment and the specification's bind the same values — scalars, except under the names
+    `coll` -/
+structure EnvRel (coll : Bytes → Bool) (m : EEnv) (s : Spec.Eval.Env) : Prop where
   vars : ∀ k, isHelper k = false → absV (m.lookup k) = s.lookup k
-  scalar : ∀ k, Scalar (m.lookup k) = true
+  scalar : ∀ k, coll k = false → Scalar (m.lookup k) = true
   globals : ∀ k, match Frame.find m.globals k with
     | some v => Spec.Eval.find s.globals k = some (absV v) ∧ Scalar v = true
     | none => Spec.Eval.find s.globals k = none
@@ -79,7 +82,7 @@ theorem bind_err {α β : Type} {o : Out α} {f : α → Out β} (h : o.bind f =
   cases o <;> simp [Spec.Eval.Out.bind] at h ⊢; exact h
 
 section
-variable {m : EEnv} {s : Spec.Eval.Env} (hr : EnvRel m s)
+variable {coll : Bytes → Bool} {m : EEnv} {s : Spec.Eval.Env} (hr : EnvRel coll m s)
 include hr
 
 /-- the strict operators (`+ - * / %`) given the two operands' simulations -/
@@ -131,7 +134,7 @@ theorem strict_sim (op : BinOp) (p : Nat) (a b : Expr)
         · cases ma <;> simp [hmb] <;> cases mb <;> simp_all
 
 /-- the model refines the specification on the scalar operator fragment -/
-theorem eval_refines_spec_ord (ord : Bool) (hord : ord = true → OrdExact) : (e : Expr) → fragO ord e = true → Sim m s e
+theorem eval_refines_spec_ord (ord : Bool) (hord : ord = true → OrdExact) : (e : Expr) → fragO coll ord e = true → Sim m s e
   | .null _, _ => by intro n; simp [Spec.Eval.eval, evalE, absV, Scalar]
   | .bool _ b, _ => by intro n; simp [Spec.Eval.eval, evalE, absV, Scalar]
   | .int _ v, hf => by
@@ -154,11 +157,11 @@ theorem eval_refines_spec_ord (ord : Bool) (hord : ord = true → OrdExact) : (e
   | .dataRef _ key .nil, hf => by
     intro n
     simp only [fragO, bne_iff_ne, ne_eq, Bool.and_eq_true, Bool.not_eq_true'] at hf
-    have h1 : (key == sIj) = false := by simpa using hf.1
+    have h1 : (key == sIj) = false := by simpa using hf.1.1
     have h2 : (key == Spec.Eval.sIj) = false := h1
     rw [Spec.Eval.eval, evalE]
     simp only [h1, h2, Bool.false_eq_true, if_false, Spec.Eval.evalAcc, evalAccesses]
-    simp [hr.vars key hf.2, hr.scalar key]
+    simp [hr.vars key hf.1.2, hr.scalar key hf.2]
   | .not _ a, hf => by
     intro n
     have ih := eval_refines_spec_ord ord hord a (by simpa [fragO] using hf) n
@@ -416,13 +419,13 @@ theorem eval_refines_spec_ord (ord : Bool) (hord : ord = true → OrdExact) : (e
 
 /-- the model refines the specification on the scalar operator fragment (no ordering comparisons, no
     hypothesis) -/
-theorem eval_refines_spec_partial (e : Expr) (hf : frag e = true) : Sim m s e :=
+theorem eval_refines_spec_partial (e : Expr) (hf : frag coll e = true) : Sim m s e :=
   eval_refines_spec_ord hr false (fun h => by cases h) e hf
 
 /-- … and with `< > <= >=` on int/int, int/float and float/float operands, given that int → float
     conversion is order-exact below 2^53 (`OrdExact`: a statement about the soft-float Base/F64 that is
     validated bit for bit by the C20 correspondence but not proved) -/
-theorem eval_refines_spec_with_ordering (hx : OrdExact) (e : Expr) (hf : fragO true e = true) : Sim m s e :=
+theorem eval_refines_spec_with_ordering (hx : OrdExact) (e : Expr) (hf : fragO coll true e = true) : Sim m s e :=
   eval_refines_spec_ord hr true (fun _ => hx) e hf
 end
 
@@ -505,8 +508,8 @@ theorem print_error_writes_nothing (g : GEnv) (esc : Bool) (pos : Nat) (arg : Ex
 def m0 : EEnv := { lookup := fun k => if k == [120] then .int 3 else .undefined, ij := none, globals := [] }
 def s0 : Spec.Eval.Env := { vars := [([120], .int 3)], loops := [], ij := none, globals := [] }
 
-theorem rel0 : EnvRel m0 s0 := by
-  refine ⟨fun k _ => ?_, fun k => ?_, fun k => ?_⟩
+theorem rel0 : EnvRel (fun _ => false) m0 s0 := by
+  refine ⟨fun k _ => ?_, fun k _ => ?_, fun k => ?_⟩
   · by_cases h : k = [120]
     · subst h; rfl
     · have h' : ([120] == k) = false := by simpa using fun e => h e.symm
